@@ -44,7 +44,7 @@ def run(ctx):
     wa = [bi for bi in sw.call_blocks(lambda c: c.endswith('AsyncWriteExt::write_all'))]
     ctx.require(recv and len(wa) >= 3, f'R19.1: anchors in stream_writer ({len(recv)}, {len(wa)})')
     wr_arm = [bi for bi in wa if (variants_at(sw, SM, bi) or set()) == {'Write'}]
-    ctx.floor('R19.1', len(wr_arm), 2, 'write_all calls in the Write arm')
+    ctx.floor('R19.1', len(wr_arm), 1, 'write_all calls in the Write arm')
     lh = loop_headers_containing(sw, recv[0])[:1] or loop_headers_containing(sw, wr_arm[0])[-1:]
     hdr = [bi for bi in wr_arm if any(bj != bi and bj in sw.reach_from([bi], avoid=lh) for bj in wr_arm)]
     dat = [bi for bi in wr_arm if bi not in hdr]
